@@ -338,6 +338,41 @@ theorem onupdate_fires_counterexample :
         [[some 0, some 0], [some 0, some 0]]
       = .ok ([[some 1, some 70], [some 2, some 70]], [0, 0]) := by decide
 
+/-! ## the primary key column -/
+
+/-- **pk_retrievable**: over every combination of the ten dialect / table / statement flags
+    and every kind of primary-key generator: when the statement wants primary keys
+    (`need_pks`) and the key is generated (not user supplied, some generator exists), the
+    plan always provides a way to obtain it — a pre-executed default, RETURNING, or
+    `cursor.lastrowid` — provided the dialect offers one of the two server-side routes for
+    a database-generated key. -/
+theorem pk_retrievable :
+    ∀ (k : PkKind) (a b c d e f g h i j : Bool),
+      let ctx : PkCtx := ⟨a, b, c, d, e, f, g, h, i, j⟩
+      needPks ctx = true → k ≠ .plain →
+      (k = .autoinc → b = true ∨ (a = true ∧ f = true)) →
+      pkRetrievable (pkPlan k false ctx) = true := by
+  intro k
+  cases k <;> decide
+
+/-- a key is never obtained twice: RETURNING and lastrowid are exclusive, and a
+    pre-executed default never also asks the database for the key -/
+theorem pk_single_route :
+    ∀ (k : PkKind) (sup a b c d e f g h i j : Bool),
+      let p := pkPlan k sup ⟨a, b, c, d, e, f, g, h, i, j⟩
+      ¬ (p.inReturning = true ∧ p.lastrowid = true) ∧
+      ¬ (p.prefetch = true ∧ (p.inReturning = true ∨ p.inlineSql = true)) := by
+  intro k
+  cases k <;> decide
+
+/-- a supplied key is always sent as the user's bind -/
+theorem pk_supplied_is_bound :
+    ∀ (k : PkKind) (a b c d e f g h i j : Bool),
+      let p := pkPlan k true ⟨a, b, c, d, e, f, g, h, i, j⟩
+      p.bound = true ∧ p.prefetch = false ∧ p.inlineSql = false := by
+  intro k
+  cases k <;> decide
+
 /-! ## non-vacuity -/
 
 example : execInsert [.none, .scalar 7, .callable 100, .context 0 1000, .sqlexpr 9, .server 3]
